@@ -66,6 +66,7 @@ def gen_plan(run_seed, idx, tier):
                        'keys': rng.choice(['bytes', 'bytes', 'bytes', 'object']),
                        'form': rng.choice(LOCK_FORMS), 'limits': rng.below(len(LIMITS)),
                        'style': rng.choice(ARG_STYLES),
+                       'sa_plus_kL': rng.choice([0, 0, 0, 0, 0, 1, 3, 7]),
                        'witness_as': rng.choice(['bytes', 'bytes', 'object']),
                        # claimants may publish sig || 00 where no flag is needed: the
                        # lock accepts it, and it is what the left neighbour then reads
@@ -153,6 +154,17 @@ def gen_plan(run_seed, idx, tier):
 
 
 # ------------------------------------------------------------------ simulation
+
+def noncanonical(wb, k):
+    """the adapter witness with sa written as sa + k*L (k = 1..7: still below 2^255): the
+    same scalar in another encoding, which a payer is free to send"""
+    if not k or len(wb) != 68:
+        return wb
+    v = scalar_to_int(wb[2:34]) + k * L
+    if v >= 1 << 255:
+        return wb
+    return wb[:2] + v.to_bytes(32, 'little') + wb[34:]
+
 
 def pb(item):
     if len(item) < 256:
@@ -396,6 +408,7 @@ class Sim:
                 # (re)derived from durable state after every restart
                 wb = real('make_adapter_witness', T.make_adapter_witness, ch.seeds[i], Ti,
                           styled_sigfields(ch.sf[i], ch.spec.get('style', 'plain')), ch.bflags).bytes
+                wb = noncanonical(wb, ch.spec.get('sa_plus_kL', 0))
                 p.cache[(c, 'out_witness')] = wb
             p.durable[(c, 'out_witness')] = wb
             self.send(i, i + 1, ('adapter', c, i, wb))
@@ -506,7 +519,7 @@ class Sim:
         key = ('exp', ch.ci, hop)
         if key not in self.extracted:
             w = T.make_adapter_witness(ch.seeds[hop], ch.T_of(hop), ch.sf[hop], ch.flags)
-            self.extracted[key] = w.bytes
+            self.extracted[key] = noncanonical(w.bytes, ch.spec.get('sa_plus_kL', 0))
         return self.extracted[key]
 
     # -- ledger and validator
